@@ -539,7 +539,18 @@ func (v *SpecView) EquivalentExpr(got []string, expected string) (bool, string, 
 		}
 		return false, fmt.Sprintf("the specification has %s, the table %s", g.String(), want.String()), nil
 	}
-	return equivalentNodes(func(env *cenv) bool { return g.evalBool(env) }, []*CNode{g}, want)
+	// two expressions: every atom of either side is part of the comparison (nothing is context)
+	both := &CNode{Op: "\\/", Kids: []*CNode{want, {Op: "/\\", Kids: []*CNode{g, {Op: "u~", Kids: []*CNode{g}}}}}}
+	ok, detail, err := equivalentNodes(func(env *cenv) bool { return g.evalBool(env) }, []*CNode{g}, both)
+	_ = detail
+	if err != nil {
+		return false, "", err
+	}
+	if !ok {
+		_, d, _ := equivalentNodes(func(env *cenv) bool { return g.evalBool(env) }, []*CNode{g}, want)
+		return false, d, nil
+	}
+	return true, "", nil
 }
 
 func looksBoolean(n *CNode) bool {
